@@ -19,6 +19,7 @@
 #include "ImathNamespace.h"
 #include "ImathQuat.h"
 #include "ImathVec.h"
+#include <algorithm>
 #include <math.h>
 
 IMATH_INTERNAL_NAMESPACE_HEADER_ENTER
@@ -979,6 +980,22 @@ alignZAxisWithTargetDir (Matrix44<T>& result, Vec3<T> targetDir, Vec3<T> upDir)
     //
 
     if (upDir.length () == 0) upDir = Vec3<T> (0, 1, 0);
+
+    //
+    // Only the directions matter.  The cross products below are
+    // quadratic and cubic in the lengths of the two vectors and would
+    // overflow or underflow for very long or very short arguments, so
+    // bring both to unit scale first.  Dividing by the largest
+    // component (rather than by the length) keeps exactly parallel
+    // arguments exactly parallel, which the degeneracy test relies on.
+    //
+
+    targetDir /= std::max (
+        std::max (std::abs (targetDir.x), std::abs (targetDir.y)),
+        std::abs (targetDir.z));
+    upDir /= std::max (
+        std::max (std::abs (upDir.x), std::abs (upDir.y)),
+        std::abs (upDir.z));
 
     //
     // Check for degeneracies.  If the upDir and targetDir are parallel
